@@ -28,7 +28,7 @@ func init() {
 		},
 		Batch: func(t string) int { return 50 },
 		Floors: []string{"histories", "ops_seek", "ops_read", "ops_reset", "target_Reader", "target_GenericReader", "target_RowGroupRows", "target_ChunkPages", "target_FileColumnPages", "target_MultiRowGroupRows", "target_NestedMultiRowGroupRows", "target_MultiRowGroupPages",
-			"target_BufferRows", "target_RowRangeRows", "target_AsyncRows", "seek_into_last_returned_page", "seek_repeated_without_read", "seek_backward", "seek_to_end", "files_without_page_index", "files_v1", "files_v2"},
+			"target_BufferRows", "target_RowRangeRows", "target_AsyncRows", "target_MergedSortedRows", "target_RowBufferChunkPages", "seek_into_last_returned_page", "seek_repeated_without_read", "seek_backward", "seek_to_end", "files_without_page_index", "files_v1", "files_v2"},
 		Rule: "case = (file: catalogue type incl. nested/repeated columns, v1/v2, small pages, 1..n row groups, with/without page index, ReadBufferSize 16/4096, sync/async; target reader among Reader, GenericReader, RowGroup.Rows, ColumnChunk.Pages, file-level Column.Pages, " +
 			"MultiRowGroup (flat and nested) rows and pages, buffers, row-range views, async rows; history of 5-60 ops SeekToRow(k)/Read(n) with k biased to page boundaries +-1, the last returned page, 0 and NumRows, repeated seeks without a read). " +
 			"Online oracle: a position counter and the row array read sequentially from a fresh reader; every read must return exactly rows[pos:pos+n] (values and levels). Distinct = descriptor hash; non-trivial = >= 1 seek followed by a read",
@@ -87,6 +87,8 @@ type pagesTarget struct {
 	col   int
 	cur   parquet.Page
 	rest  []parquet.Row // rows of the current page not yet handed out
+
+	pagesRead int
 }
 
 func (t *pagesTarget) Name() string   { return t.name }
@@ -104,8 +106,23 @@ func (t *pagesTarget) Read(n int) ([]parquet.Row, error) {
 			if err != nil {
 				return out, err
 			}
+			// every other page is read through a 4-value buffer: rows then end in the middle of a ReadValues call
 			vals := make([]parquet.Value, p.NumValues())
-			k, rerr := p.Values().ReadValues(vals)
+			k := 0
+			var rerr error
+			t.pagesRead++
+			if vr := p.Values(); t.pagesRead%2 == 0 || len(vals) <= 4 {
+				k, rerr = vr.ReadValues(vals)
+			} else {
+				for k < len(vals) {
+					var m int
+					m, rerr = vr.ReadValues(vals[k:min(len(vals), k+4)])
+					k += m
+					if rerr != nil || m == 0 {
+						break
+					}
+				}
+			}
 			if rerr != nil && !errors.Is(rerr, io.EOF) {
 				parquet.Release(p)
 				return out, rerr
@@ -186,7 +203,7 @@ func runC08(c *Ctx) {
 	rgs := f.RowGroups()
 
 	// choose the target and build its ground truth from a fresh sequential pass
-	kind := c.Case % 15
+	kind := c.Case % 16
 	forwardOnly := false
 	var mk func() seekTarget
 	col := r.Intn(ncols)
@@ -286,6 +303,18 @@ func runC08(c *Ctx) {
 				return &rowsTarget{name: "ConvertedForwardOnlyRows", n: pick.NumRows(), rr: noSeek{cr}, closer: func() { rr.Close() }}
 			}
 			return &rowsTarget{name: "ConvertedForwardOnlyRows", n: pick.NumRows(), rr: sk, closer: func() { rr.Close() }}
+		}
+	case 15:
+		// the column chunks of a RowBuffer
+		rb := parquet.NewRowBuffer[any](te.ops.Schema())
+		for i := 0; i < n; i++ {
+			if _, err := rb.WriteRows([]parquet.Row{te.ops.Schema().Deconstruct(nil, rows.Index(i).Interface())}); err != nil {
+				c.Fail("harness.buffer", nil, "%v", err)
+				return
+			}
+		}
+		mk = func() seekTarget {
+			return &pagesTarget{name: "RowBufferChunkPages", n: rb.NumRows(), pages: rb.ColumnChunks()[col].Pages(), col: col}
 		}
 	case 14:
 		// a sorted merge of overlapping inputs (rows dealt out to 2..3 buffers in turn): its reader offers forward seeks
